@@ -4,7 +4,7 @@ From Coq Require Import List ZArith Bool.
 From Coq.Strings Require Import Byte.
 Import ListNotations.
 From SV Require Import Text G_tab C11_Model C11_Lemmas C11_TextLemmas C11_FileLemmas C11_Examples C11_IntLemmas C11_RenderLemmas
-  C11_SelectLemmas C11_BlocksLemmas C11_Examples2.
+  C11_SelectLemmas C11_BlocksLemmas C11_Examples2 C11_AnyLemmas C11_TableLemmas C11_Examples3.
 Local Open Scope Z_scope.
 
 (* P0 orientation: the decision of core.py:313-335 is the sign rule; in particular every accepted row spans
@@ -501,3 +501,165 @@ Example C11_witness_blank_field :
   | Err _ => False
   end.
 Proof. exact witness_blank_field. Qed.
+
+(* ---- round 7: ANY list of lines, no assumption on their shape ----
+   data_line d sep l = l is neither a '#' line nor blank nor (MMseqs2) a name row; line_toks = line.strip().split(sep, maxsplit);
+   lines_features d ftype hs sep maxsplit ls = row_feature on the tokens of exactly the data lines of ls, in order, first error
+   wins. content_lines univ content = the lines of the file (universal newlines or not). *)
+
+(* outfmt= given (BLAST 6/7/10, MMseqs2 0/4): whatever the file contains *)
+Theorem C11_read_any_outfmt : forall d sep o ftype univ hs content,
+  (match d with Infernal => false | _ => true end) = true -> headers_from false d (split_ws o) = Ok hs ->
+  snd (read_content d sep (Some o) ftype univ content) = lines_features d ftype hs sep None (content_lines univ content).
+Proof. exact read_any_outfmt. Qed.
+Print Assumptions C11_read_any_outfmt.
+
+(* default columns (no outfmt=): any text without a line that starts header discovery ('# Fields:' for BLAST, a name row for
+   MMseqs2) *)
+Theorem C11_read_any_text : forall d sep ftype univ names hs content,
+  (match d with Infernal => false | _ => true end) = true ->
+  assoc (dialect_name d) DEFAULT_OUTFMT = Some names -> headers_from false d names = Ok hs ->
+  forallb (fun l => negb (discovery_line d sep l)) (content_lines univ content) = true ->
+  snd (read_content d sep None ftype univ content) = lines_features d ftype hs sep None (content_lines univ content).
+Proof. exact read_any_text. Qed.
+Print Assumptions C11_read_any_text.
+
+(* Infernal: title lines and the ruler, then ANYTHING (rows, comments, blank lines, further header/ruler pairs of a second
+   table, junk): the data lines are split with maxsplit n-1 and read with the columns of the n-column table *)
+Theorem C11_read_infernal_any : forall sep outfmt ftype n hs ruler pre tail,
+  ruler_ok n ruler = true -> infernal_headers n = Ok hs -> forallb (skip_line Infernal true true) pre = true ->
+  snd (read_content Infernal sep outfmt ftype false (unlines (pre ++ [ruler]) ++ tail)) =
+  lines_features Infernal ftype hs None (Some (Nat.pred n)) (lines_keep tail).
+Proof. exact read_infernal_any. Qed.
+Print Assumptions C11_read_infernal_any.
+
+(* one feature per data line *)
+Theorem C11_feature_count : forall d sep o ftype univ hs content fs,
+  (match d with Infernal => false | _ => true end) = true -> headers_from false d (split_ws o) = Ok hs ->
+  snd (read_content d sep (Some o) ftype univ content) = Ok fs ->
+  length fs = length (filter (data_line d sep) (content_lines univ content)).
+Proof. exact read_feature_count. Qed.
+Print Assumptions C11_feature_count.
+
+(* comment and blank lines are irrelevant wherever they stand (any lines a, b around them; also when outfmt is invalid) *)
+Theorem C11_comments_irrelevant : forall d sep o ftype a cs b, forallb skip_any cs = true ->
+  snd (read_lines d sep (Some o) ftype (a ++ cs ++ b)) = snd (read_lines d sep (Some o) ftype (a ++ b)).
+Proof. exact read_comments_irrelevant. Qed.
+Print Assumptions C11_comments_irrelevant.
+
+(* the comments= list of the model: the '#' lines in order, none of them a data line, additive over concatenation *)
+Theorem C11_comments_list : forall d sep ls,
+  comment_lines ls = filter (starts_with (bs "#"%bs)) ls /\
+  (forall l, In l (comment_lines ls) -> data_line d sep l = false) /\
+  (forall a b, comment_lines (a ++ b) = comment_lines a ++ comment_lines b).
+Proof. exact comments_list. Qed.
+Print Assumptions C11_comments_list.
+
+(* two texts one after the other (files of a glob, members of a gzip file) read to the first result followed by the second *)
+Theorem C11_read_concat : forall d sep o ftype hs a b,
+  (match d with Infernal => false | _ => true end) = true -> headers_from false d (split_ws o) = Ok hs ->
+  snd (read_content d sep (Some o) ftype false ((a ++ [x0a]) ++ b)) =
+  match snd (read_content d sep (Some o) ftype false (a ++ [x0a])) with
+  | Ok fa => match snd (read_content d sep (Some o) ftype false b) with Ok fb => Ok (fa ++ fb) | Err e => Err e end
+  | Err e => Err e
+  end.
+Proof. exact read_concat. Qed.
+Print Assumptions C11_read_concat.
+
+(* ---- round 7: every column converted to its declared type ----
+   declared_types d = the type of every column of dialect d, written from the manuals of the three tools (not from sugar) *)
+Theorem C11_declared_tables :
+  forallb declared_ok dialects = true /\ converth_typed_ok = true.
+Proof. exact (conj (proj2 (forallb_forall declared_ok dialects) (fun d _ => declared_ok_all d)) converth_typed_all). Qed.
+Print Assumptions C11_declared_tables.
+
+Theorem C11_columns_typed : forall d ftype hs toks f,
+  nodup_str (map hname hs) = true -> (forall h, In h hs -> In h (header_of d)) -> row_feature d ftype hs toks = Ok f ->
+  forall i h v, nth_error hs i = Some h -> nth_error toks i = Some v ->
+  exists t, assoc (hname h) (declared_types d) = Some t /\ assoc (hname h) (f_fmt f) = Some (conv t v).
+Proof. exact columns_typed. Qed.
+Print Assumptions C11_columns_typed.
+
+(* the headers a reader works with are always table columns (outfmt=, '# Fields:', name row, defaults) *)
+Theorem C11_headers_are_columns : forall by_long d names hs, headers_from by_long d names = Ok hs ->
+  forall h, In h hs -> In h (header_of d).
+Proof. exact headers_from_in. Qed.
+Print Assumptions C11_headers_are_columns.
+
+Theorem C11_conv_meaning : forall v,
+  conv TStr v = AStr v /\
+  (forall z, py_int v = Some z -> conv TInt v = AInt z) /\ (py_int v = None -> conv TInt v = AStr v) /\
+  (forall x, py_float v = Some x -> conv TFloat v = AFlt x) /\ (py_float v = None -> conv TFloat v = AStr v).
+Proof. exact conv_meaning. Qed.
+Print Assumptions C11_conv_meaning.
+
+(* ---- round 7: the common metadata is exactly the documented projection of the format metadata ----
+   (type, if ftype is given) followed by score <- bit score, evalue <- e-value, seqid <- subject id, name <- query id for the
+   columns that are present; no other key *)
+Theorem C11_common_metadata : forall d ftype a f, feature_of_attrs d ftype a = Ok f ->
+  f_common f = type_entry ftype a ++ common_projection d (f_fmt f).
+Proof. exact common_metadata. Qed.
+Print Assumptions C11_common_metadata.
+
+Theorem C11_copyattrs_documented :
+  same_pairs (map (fun p => (snd p, fst p)) copyattrs) documented_common = true /\
+  same_pairs documented_common (map (fun p => (snd p, fst p)) copyattrs) = true.
+Proof. exact copyattrs_documented. Qed.
+Print Assumptions C11_copyattrs_documented.
+
+(* ---- round 7: the MMseqs2 name-row decision: no column name reads as an integer, so a row holding a coordinate - any
+   rendered hit row - is never taken for the header ---- *)
+Theorem C11_names_row_never_hit :
+  (forall toks t, In t toks -> py_int t <> None -> subset toks MMSEQS_HEADER_NAMES = false) /\
+  (forall d sep line t, In t (line_toks sep None line) -> py_int t <> None -> names_row d sep line = false) /\
+  (forall d free hs h, sel_ok d hs = true -> mm_header_toks d (hit_row d free hs h) = false).
+Proof. exact (conj names_row_never_hit (conj int_row_no_names_row hit_row_not_names)). Qed.
+Print Assumptions C11_names_row_never_hit.
+
+(* ---- round 7: Infernal tblout fmt 1, 2, 3 and the old fmt 2 end to end, without hypotheses on the tables ---- *)
+Theorem C11_read_infernal_fmt_hits : forall sep outfmt ftype n ruler pre post rows free hits,
+  In n [18; 29; 20; 27]%nat -> ruler_ok n ruler = true ->
+  forallb (skip_line Infernal true true) pre = true -> forallb (skip_line Infernal true false) post = true ->
+  forallb (wsrow_ok n) rows = true -> forallb has_direction hits = true ->
+  map wsrow_toks rows = sel_rows Infernal free (infernal_hs n) hits ->
+  exists fs, snd (read_content Infernal sep outfmt ftype false (unlines (pre ++ [ruler] ++ map wsrow_line rows ++ post))) = Ok fs /\
+             map loc_meta fs = map spec_loc_meta hits.
+Proof. exact read_infernal_fmt_hits. Qed.
+Print Assumptions C11_read_infernal_fmt_hits.
+
+(* non-vacuity, round 7 *)
+Example C11_witness_any_outfmt :
+  (exists hs, headers_from false Mmseqs (split_ws ex3_outfmt) = Ok hs) /\
+  length (filter (data_line Mmseqs (Some x09)) (content_lines false ex3_content)) = 2%nat /\
+  locs (snd (read_content Mmseqs (Some x09) (Some ex3_outfmt) None false ex3_content)) =
+    Some [(9, 20, bs "-"%bs); (99, 300, bs "+"%bs)] /\
+  wf_C11 Mmseqs (Some x09) (Some ex3_outfmt) None false ex3_content = true.
+Proof. exact witness_any_outfmt. Qed.
+Example C11_witness_any_text :
+  forallb (fun l => negb (discovery_line Blast (Some x09) l)) (content_lines false (unlines ex3_blast_lines)) = true /\
+  (exists names hs, assoc (dialect_name Blast) DEFAULT_OUTFMT = Some names /\ headers_from false Blast names = Ok hs) /\
+  locs (snd (read_content Blast (Some x09) None None false (unlines ex3_blast_lines))) =
+    Some [(9, 20, bs "-"%bs); (2, 7, bs "."%bs)].
+Proof. exact witness_any_text. Qed.
+Example C11_witness_infernal_any :
+  ruler_ok 18 (ruler_of 18) = true /\ (exists hs, infernal_headers 18 = Ok hs) /\
+  forallb (skip_line Infernal true true) [bs "#target name  accession"%bs] = true /\
+  locs (snd (read_content Infernal None None None false (unlines ([bs "#target name  accession"%bs] ++ [ruler_of 18]) ++ ex3_inf_tail))) =
+    Some [(1199, 1271, bs "+"%bs); (4, 9, bs "+"%bs)] /\
+  match snd (read_content Infernal None None None false (unlines ([bs "#target name  accession"%bs] ++ [ruler_of 18]) ++ ex3_inf_tail)) with
+  | Ok (f :: _) => assoc (bs "description"%bs) (f_fmt f) = Some (AStr (bs "some genome, --complete  #1"%bs)) /\
+                   assoc (bs "score"%bs) (f_common f) = Some (AFlt (FNum false 0 (-1)))
+  | _ => False
+  end.
+Proof. exact witness_infernal_any. Qed.
+Example C11_witness_typed :
+  nodup_str (map hname ex3_hs) = true /\ (forall h, In h ex3_hs -> In h (header_of Blast)) /\
+  match row_feature Blast (Some (bs "hit"%bs)) ex3_hs ex3_row with
+  | Ok f => assoc (bs "sframe"%bs) (f_fmt f) = Some (AInt (-1)) /\ assoc (bs "qframe"%bs) (f_fmt f) = Some (AInt 1) /\
+            assoc (bs "bitscore"%bs) (f_fmt f) = Some (AFlt (FNum false 0 (-1))) /\
+            f_common f = [(bs "type"%bs, AStr (bs "hit"%bs)); (bs "score"%bs, AFlt (FNum false 0 (-1)));
+                          (bs "evalue"%bs, AFlt (FNum false 25 (-13))); (bs "seqid"%bs, AStr (bs "chr1"%bs));
+                          (bs "name"%bs, AStr (bs "q1"%bs))]
+  | Err _ => False
+  end.
+Proof. exact witness_typed. Qed.
